@@ -212,6 +212,9 @@ package chainntnfs
 //@   site lookup ntfnsByConfirmHeight: assert arg(key) == height
 //@   site lookup spendsByHeight: assert arg(key) == height
 //@   site call dispatchSpendDetails: assert arg(ntfn) == ntfn && arg(details) == spendSet.details
+//@   // success means the height was served: its queue of matured confirmations is retired (every registration in it was visited: each
+//@   // one the loop moves past is dispatched) and every spend registration of the height went through the dispatch
+//@   loop 3 step ntfn.dispatched
 //@
 //@ // ---- registration: the rescan handed to the caller starts at the better of the caller's hint and
 //@ // ---- the cached hint and ends at the notifier's height; no rescan when the hint is above it
@@ -255,6 +258,12 @@ package chainntnfs
 //@   loop * havoc
 //@   site call DisconnectTip: assert retn(GetBlockHash, 1) == nil && retn(GetBlockHeader, 1) == nil && arg(0) == txNotifier
 //@   site call GetBlockHeader: assert arg(1) == retn(GetBlockHash, 0) && retn(GetBlockHash, 1) == nil
+//@   // success means the notifier was rewound all the way: every block above the target was disconnected, one at a time from the top, and the
+//@   // best block handed back is the target height (or the unchanged best block when it was not above the target)
+//@   loop 0 invariant newBestBlock.Height == height && height <= currBestBlock.Height && (height >= targetHeight || height == currBestBlock.Height)
+//@   loop 0 step called(DisconnectTip) && ret(DisconnectTip) == nil && height == prev(height) - 1
+//@   site call DisconnectTip as top-down: assert arg(1) == wrap(height, 32) && newBestBlock.Height == height
+//@   ensures result1 == nil ==> result0.Height == ite(currBestBlock.Height > targetHeight, targetHeight, currBestBlock.Height)
 //@
 //@ // ---- blocks missed while the backend was silent: with a backend that keeps reorged blocks every call compares our best block with the
 //@ // ---- chain and rewinds the notifier to the common ancestor - whatever the height of the block that was heard (a reorg during the gap
